@@ -158,7 +158,9 @@ operand, a variable that its right operand assigns (operand registers are read w
 and the nested target is an ordinary variable (not a built-in register, whose write transforms the value).
 So may a guarded bind — `(:= y (if c v))`, `(:= y (!if c v))`, `(:= y (ewma a v))` — under the same discipline: its
 result register is the register of `y`, it assigns `y` and what its operands assign, and its two operands must be
-hazard-free against each other as at statement level (`stmtOk2`). -/
+hazard-free against each other as at statement level (`stmtOk2`). A statement may also be a bare operator
+expression (a pure operator at the top, `valueE` as a whole): evaluated for its nested binds and its faults, its
+value dropped. -/
 
 def writesIn : Expr → List Name
   | .sexp .bind (.atom (.name x)) r => x :: writesIn r
@@ -187,12 +189,15 @@ def valueE : Expr → Bool
     (match o with | .bind | .if | .notIf | .ewma | .def => false | _ => true) && valueE l && valueE r && noHazard l r
   | _ => false
 
+/-- a statement of the fragment: a comment, a (plain or guarded) bind of value expressions, or a *bare* operator
+expression over value expressions, evaluated for its nested binds and its faults, its value discarded -/
 def stmtOk2 : Expr → Bool
   | .none => true
   | .sexp .bind (.atom (.name _)) (.sexp .if c v) => valueE c && valueE v && noHazard c v
   | .sexp .bind (.atom (.name _)) (.sexp .notIf c v) => valueE c && valueE v && noHazard c v
   | .sexp .bind (.atom (.name _)) (.sexp .ewma a v) => valueE a && valueE v && noHazard a v
   | .sexp .bind (.atom (.name _)) r => valueE r
+  | .sexp o l r => (pureOpcode o).isSome && valueE (.sexp o l r)
   | _ => false
 
 /-- the programs the oracle decides -/
@@ -235,9 +240,8 @@ theorem stmtOk2_of_stmtOk {e : Expr} (h : stmtOk e = true) : stmtOk2 e = true :=
   · simp only [Bool.and_eq_true] at h
     simp [stmtOk2, valueE_of_pure h.1, valueE_of_pure h.2, noHazard_of_pure h.2]
   · rename_i x r h1 h2 h3
-    have hv := valueE_of_pure h
-    unfold stmtOk2
-    split <;> simp_all
+    rw [stmtOk2.eq_5 x r h1 h2 h3]
+    exact valueE_of_pure h
   · cases h
 
 theorem inOracle_of_stratified {evs : List Event} (h : Stratified evs = true) : InOracle evs = true := by
@@ -387,6 +391,36 @@ theorem lowerE_sexp_inv {ρ : Rho} {o : Op} {l r : Expr} {k : Nat} {le : LE} {co
   obtain ⟨code', cl, cr, ho', hl, hr, e⟩ := lowerE_op_inv (fun x hb _ => by subst hb; cases ho) h
   rw [ho] at ho'; cases ho'
   exact ⟨cl, cr, hl, hr, e⟩
+
+/-- a bare operator statement is lowered as the expression it is -/
+theorem lowerStmt_bare {ρ : Rho} {o : Op} {code : Nat} (ho : pureOpcode o = some code) (l r : Expr) :
+    lowerStmt ρ (.sexp o l r) = (lowerE ρ (.sexp o l r) 0).map (·.instrs) :=
+  lowerStmt.eq_6 ρ o l r (fun x _ _ hb _ _ => by subst hb; cases ho) (fun x _ _ hb _ _ => by subst hb; cases ho)
+    (fun x _ _ hb _ _ => by subst hb; cases ho) (fun x hb _ => by subst hb; cases ho)
+
+theorem stmtOk2_bare {o : Op} {code : Nat} (ho : pureOpcode o = some code) (l r : Expr) :
+    stmtOk2 (.sexp o l r) = valueE (.sexp o l r) := by
+  rw [stmtOk2.eq_6 o l r (fun x _ _ hb _ _ => by subst hb; cases ho) (fun x _ _ hb _ _ => by subst hb; cases ho)
+    (fun x _ _ hb _ _ => by subst hb; cases ho) (fun x hb _ => by subst hb; cases ho), ho]
+  rfl
+
+/-- the forms of a statement of the fragment, coarsely: a comment, a bare operator expression that is a value
+expression, or a bind to a name -/
+theorem stmtOk2_forms {e : Expr} (h : stmtOk2 e = true) :
+    e = .none ∨ (∃ o l r code, e = .sexp o l r ∧ pureOpcode o = some code ∧ valueE (.sexp o l r) = true) ∨
+    ∃ x rhs, e = .sexp .bind (.atom (.name x)) rhs := by
+  unfold stmtOk2 at h
+  split at h
+  · exact .inl rfl
+  · exact .inr (.inr ⟨_, _, rfl⟩)
+  · exact .inr (.inr ⟨_, _, rfl⟩)
+  · exact .inr (.inr ⟨_, _, rfl⟩)
+  · exact .inr (.inr ⟨_, _, rfl⟩)
+  · rename_i o l r _ _ _ _
+    rw [Bool.and_eq_true, Option.isSome_iff_exists] at h
+    obtain ⟨⟨code, ho⟩, hv⟩ := h
+    exact .inr (.inl ⟨o, l, r, code, rfl, ho, hv⟩)
+  · cases h
 
 /-- induction on expressions that also gives the hypothesis for the two operands of a right operand that is
 itself a node (the operands of the conditional / ewma of a guarded bind) -/
